@@ -29,6 +29,7 @@ for fam in ("sym", "gen", "geig"):
     for code, t in ((1, "f"), (2, "d"), (3, "l")):
         TARGETS["drv_ir_%s_%s" % (fam, t)] = ("drv_ir_%s.cpp" % fam, ["-DVH_ONLY=%d" % code], [])
 TARGETS["drv_fn"] = ("drv_fn.cpp", [], [])
+TARGETS["drv_args"] = ("drv_args.cpp", [], [])
 TARGETS["drv_kernels"] = ("drv_kernels.cpp", [], [])
 TARGETS["drv_bkldlt"] = ("drv_bkldlt.cpp", [], [])
 TARGETS["drv_matop"] = ("drv_matop.cpp", [], [])
